@@ -49,7 +49,9 @@ func (m *Model) UpdateMeterReading(meterReading *traits.MeterReading, opts ...re
 
 // RecordReading records a new usage value, updating end time to now.
 func (m *Model) RecordReading(val float32) (*traits.MeterReading, error) {
-	return m.UpdateMeterReading(&traits.MeterReading{Usage: val}, resource.InterceptBefore(func(old, new proto.Message) {
+	// only usage and end time are written, a write without an update mask would clear the start time.
+	// The end time is set on the merged value: merging timestamps would keep the old seconds or nanos where the new ones are zero.
+	return m.UpdateMeterReading(&traits.MeterReading{Usage: val}, resource.WithUpdatePaths("usage"), resource.InterceptAfter(func(old, new proto.Message) {
 		now := m.meterReading.Clock().Now()
 		newVal := new.(*traits.MeterReading)
 		newVal.EndTime = timestamppb.New(now)
